@@ -578,13 +578,12 @@ def run(chk):
             pass
         b = rng.choice(pool)
         if b != 0:
-            q = Fraction(a, b)
             try:
-                f = a / b
-                if Fraction(f) == q:      # the quotient is a double: it must be returned exactly
-                    lcases.append(("true_div.exact", f"{lit(a)} / {lit(b)}", None, fhex(f), (a, b)))
+                f = a / b              # CPython: correctly rounded quotient of the exact integers
+                kind = "exact" if Fraction(f) == Fraction(a, b) else "nearest"
+                lcases.append(("true_div." + kind, f"{lit(a)} / {lit(b)}", None, fhex(f) if f != 0 or a == 0 else "UNDERFLOW", (a, b)))
             except OverflowError:
-                pass
+                lcases.append(("true_div.overflow", f"{lit(a)} / {lit(b)}", None, ERR, (a, b)))
         else:
             lcases.append(("true_div.zero", f"{lit(a)} / {lit(b)}", None, ERR, (a, b)))
         c = rng.choice([0, 65, 0x7f, 0xe9, 0x3b1, 0xd7ff, 0xd800, 0xdfff, 0xe000, 0xffff, 0x10000, 0x1f600, 0x10ffff, 0x110000,
@@ -601,6 +600,8 @@ def run(chk):
             chk.nontrivial.add((name,) + tuple(inp))
         got = canon_impl(d)
         replay = {"src": f"let r = {expr};", "get": ["r"], "expected": want, "got": d}
+        if want == "UNDERFLOW":     # quotient below the subnormal range: any zero of the right sign class is accepted
+            want = got if got in ("(float 0000000000000000)", "(float 8000000000000000)") else "(float 0000000000000000)"
         if want == "HASH":
             bad = not (got.startswith("(int ") and 0 <= int(got.split()[2].rstrip(")")) < 2**64)
             if bad:
@@ -631,3 +632,43 @@ def run(chk):
     return chk.finish(rule="operand tuples over the boundary pool {0,±1,small,±2^31,±2^53,±2^62..2^65,±2^127,±2^128 and neighbours, random 1-400 bit} "
                            "for every LazyBigint operation (direct) and every integer builtin (through the language); "
                            "non-trivial = distinct (operation, operands) with at least one operand outside the i64 range")
+
+
+def replay(path):
+    """./check C14 --replay FILE : re-run the single input recorded in a replay file against the current tree."""
+    rec = json.load(open(path))
+    r = rec.get("replay", {})
+    key = rec.get("key", "?")
+    if "src" in r and "expected" in r:
+        resp = run_harness([{"op": "run", "src": r["src"], "get": r.get("get", ["r"])}])[0]
+        from .common import _resp_fail
+        f = _resp_fail(resp)
+        got = canon_impl(f if f is not None else resp["vals"][r.get("get", ["r"])[0]])
+        want = r["expected"]
+        ok = (got == want) if want != "HASH" else got.startswith("(int ")
+        print(f"replay {key}: {r['src']}  ->  {got}   (expected {want})")
+    elif "harness" in r and "expected" in r:
+        resp = run_harness([r["harness"]])[0]
+        got = "PANIC" if "panic" in resp else resp.get("r", json.dumps(resp))
+        want = r["expected"]
+        if want.startswith("STR"):
+            got = "STR" + got
+        ok = got == want
+        print(f"replay {key}: {json.dumps(r['harness'])}  ->  {got}   (expected {want})")
+    elif "harness" in r and "model" in r:
+        resp = run_harness([r["harness"]])[0]
+        got = "PANIC" if "panic" in resp else resp.get("r", json.dumps(resp))
+        gm = run_model([r["model"]])[0]
+        gm = "PANIC" if gm.startswith("panic") else ("STR" + dec_str(gm) if gm.startswith("str:") else gm)
+        if r["harness"].get("f") in ("to_string", "magnitude_to_str") and got != "PANIC":
+            got = "STR" + got
+        ok = got == gm
+        print(f"replay {key}: implementation {got}, model {gm}")
+    else:
+        print(f"replay {key}: nothing executable recorded ({rec.get('what', '')[:200]})")
+        return 1
+    if ok:
+        print(f"OK property=C14 replay passes on the current tree")
+        return 0
+    print(f"VIOLATION property=C14 replay={path}")
+    return 1
